@@ -9,6 +9,7 @@ import Just.Model.Unindent
 import Just.Model.Header
 import Just.Model.Items
 import Just.Model.Cook
+import Just.Model.Ast
 open Lean Just
 
 /-- first entry whose key occurs in `k` (the fake shell's matching rule) -/
@@ -262,6 +263,7 @@ def tkFromJson (j : Json) : Except String Syntax.Tk := do
   | "lparen" => pure .lparen | "rparen" => pure .rparen | "comma" => pure .comma
   | "lbrace" => pure .lbrace | "rbrace" => pure .rbrace
   | "Text" => pure (.text s)
+  | "Comment" => pure (.comment s.toList)
   | "eqeq" => pure (.op .eq) | "bangeq" => pure (.op .ne) | "eqtilde" => pure (.op .match) | "bangtilde" => pure (.op .nomatch)
   | other => pure (.other other)
 
@@ -277,6 +279,7 @@ def tkToJson : Syntax.Tk → Json
   | .op .eq => Json.mkObj [("k", "eqeq")] | .op .ne => Json.mkObj [("k", "bangeq")]
   | .op .match => Json.mkObj [("k", "eqtilde")] | .op .nomatch => Json.mkObj [("k", "bangtilde")]
   | .text s => Json.mkObj [("k", "Text"), ("s", s)]
+  | .comment c => Json.mkObj [("k", "Comment"), ("s", String.ofList c)]
   | .other k => Json.mkObj [("k", k)]
 
 def opStr : CondOp → String
@@ -288,7 +291,10 @@ def inner (lexeme : String) : String :=
   let cs := match lexeme.toList with
     | 'x' :: cs => cs      -- a shell-expanded literal: the generator uses texts that expand to themselves
     | cs => cs
-  String.ofList ((cs.drop 1).dropLast)
+  match cs with
+  | a :: b :: c :: rest => if a == b && b == c && (a == '\'' || a == '"' || a == '`') && rest.length ≥ 3 then String.ofList (rest.take (rest.length - 3))
+                         else String.ofList ((cs.drop 1).dropLast)
+  | _ => String.ofList ((cs.drop 1).dropLast)
 
 mutual
 /-- the JSON the dump prints for an expression (groups are transparent there) -/
@@ -389,6 +395,49 @@ def handleItem (j : Json) : Except String Json := do
       ("rest", toJson rest.length), ("printed", Json.arr (printed.map tkToJson).toArray), ("reparse_same", same)]
   | none => return Json.mkObj [("parse", Json.null)]
 
+def attrJson (a : Ast.Attr) : Json := Json.mkObj [("name", a.name), ("args", toJson (a.args.map inner))]
+
+def optChars : Option (List Char) → Json
+  | some d => Json.str (String.ofList d)
+  | none => Json.null
+
+def itemJson : Ast.Item → Json
+  | .alias p a => Json.mkObj [("kind", "alias"), ("private", p), ("name", a.name), ("target", toJson (a.target :: a.path))]
+  | .assignment p a => Json.mkObj [("kind", "assignment"), ("private", p), ("name", a.name), ("export", a.exported), ("value", exprDump a.value)]
+  | .comment c => Json.mkObj [("kind", "comment"), ("text", String.ofList c)]
+  | .import o p => Json.mkObj [("kind", "import"), ("optional", o), ("path", inner p)]
+  | .module o n p d as => Json.mkObj [("kind", "module"), ("optional", o), ("name", n),
+      ("path", match p with | some l => Json.str (inner l) | none => Json.null), ("doc", optChars d), ("attributes", Json.arr (as.map attrJson).toArray)]
+  | .recipe d as r =>
+    let h := r.header
+    let ps := h.params ++ (match h.variadic with | some v => [v] | none => [])
+    Json.mkObj [("kind", "recipe"), ("doc", optChars d), ("attributes", Json.arr (as.map attrJson).toArray), ("name", h.name), ("quiet", h.quiet),
+      ("parameters", Json.arr (ps.map paramJson).toArray),
+      ("dependencies", Json.arr ((h.priors ++ h.subsequents).map depJson).toArray), ("priors", toJson h.priors.length),
+      ("body", Json.arr (r.body.map (fun l => Json.arr (l.map fragJson).toArray)).toArray)]
+  | .set s => Json.mkObj [("kind", "set"), ("name", s.name), ("value", match s.value with
+      | .flag b => toJson b | .lit l => Json.str (inner l) | .interp c as => toJson ((c :: as).map inner))]
+  | .unexport n => Json.mkObj [("kind", "unexport"), ("name", n)]
+
+/-- the order of two `[group(…)]` literals: by their text (the generator of the correspondence check uses plain
+one-line literals, whose cooked text is the text between the delimiters) -/
+def litLeInner (a b : String) : Bool := inner a ≤ inner b
+
+/-- {"op":"ast","tokens":[..]}: parse a whole justfile, print it back, parse again -/
+def handleAst (j : Json) : Except String Json := do
+  let toksJ ← (← j.getObjVal? "tokens").getArr?
+  let toks ← toksJ.toList.mapM tkFromJson
+  let fuel := 4 * toks.length + 16
+  match Ast.parseAst litLeInner fuel toks with
+  | none => return Json.mkObj [("parse", Json.null)]
+  | some items =>
+    let printed := Ast.printAst items
+    let same := match Ast.parseAst litLeInner (4 * printed.length + 16) printed with
+      | some items2 => (repr items2).pretty == (repr (items.map Ast.Item.forget)).pretty
+      | none => false
+    return Json.mkObj [("items", Json.arr (items.map itemJson).toArray), ("printed", Json.arr (printed.map tkToJson).toArray),
+      ("reparse_same", same)]
+
 def cookErrName : Cook.Err → String
   | .invalidEscape _ => "InvalidEscapeSequence" | .unicodeDelimiter _ => "UnicodeEscapeDelimiter"
   | .unicodeEmpty => "UnicodeEscapeEmpty" | .unicodeRange => "UnicodeEscapeRange" | .unicodeLength => "UnicodeEscapeLength"
@@ -433,6 +482,7 @@ def handle (line : String) : Json :=
       | "header" => handleHeader j
       | "cook" => handleCook j
       | "item" => handleItem j
+      | "ast" => handleAst j
       | "unindent" => handleUnindent j
       | "syntax" => handleSyntax j
       | "body" => handleBody j
